@@ -159,12 +159,15 @@ func (m *Manager) trySyncNextBlock(ctx context.Context, daHeight uint64) error {
 			return fmt.Errorf("failed to apply block: %w", err)
 		}
 
-		if err = m.updateState(ctx, newState); err != nil {
-			return fmt.Errorf("failed to save updated state: %w", err)
-		}
-
+		// the block is saved before the state that refers to it: if the node stops in between, the block is
+		// simply applied again after restart, whereas a state without its block could never be completed
+		// (NewManager raises the store height to the state's height)
 		if err = m.store.SaveBlockData(ctx, h, d, &h.Signature); err != nil {
 			return fmt.Errorf("failed to save block: %w", err)
+		}
+
+		if err = m.updateState(ctx, newState); err != nil {
+			return fmt.Errorf("failed to save updated state: %w", err)
 		}
 
 		// Height gets updated
